@@ -131,6 +131,13 @@ func H_C16_Queries() {
 		nd.Assert("C16.list-auction-by-type", err2 == nil && r2 != nil && len(r2.Auction) == 1)
 		r3, err3 := q.ListAuction(e.Ctx, &types.QueryAllAuctionRequest{})
 		nd.Assert("C16.list-auction-all", err3 == nil && r3 != nil && len(r3.Auction) == 2)
+		// both filters at once: every non-default field must hold
+		r4, err4 := q.ListAuction(e.Ctx, &types.QueryAllAuctionRequest{Type: types.AuctionTypeBatch.String(), Status: types.AuctionStatusFinished.String()})
+		nd.Assert("C16.list-auction-by-type-and-status-empty", err4 == nil && r4 != nil && len(r4.Auction) == 0)
+		r5, err5 := q.ListAuction(e.Ctx, &types.QueryAllAuctionRequest{Type: types.AuctionTypeBatch.String(), Status: types.AuctionStatusVesting.String()})
+		nd.Assert("C16.list-auction-by-type-and-status", err5 == nil && r5 != nil && len(r5.Auction) == 1)
+		r6, err6 := q.ListAuction(e.Ctx, &types.QueryAllAuctionRequest{Type: types.AuctionTypeFixedPrice.String(), Status: types.AuctionStatusVesting.String()})
+		nd.Assert("C16.list-auction-by-type-and-other-status-empty", err6 == nil && r6 != nil && len(r6.Auction) == 0)
 		nd.Cover("query-auctions")
 	case 2: // bids of one auction
 		r, err := q.ListBid(e.Ctx, &types.QueryAllBidRequest{AuctionId: 1})
